@@ -105,7 +105,7 @@ type shape struct {
 }
 
 func gen(rng *rand.Rand, idx int) shape {
-	s := shape{Idx: idx, Prefix: []string{"", "a", "a/b", "dev/prog"}[rng.IntN(4)], Path: []string{"newstore", "apply"}[rng.IntN(2)]}
+	s := shape{Idx: idx, Prefix: []string{"", "a", "a/b", "dev/prog"}[rng.IntN(4)], Path: []string{"newstore", "apply", "apply", "declare-then-apply"}[rng.IntN(4)]}
 	s.Embed = rng.IntN(5) == 0
 	tags := []string{"x", "y", "db/pw", "k1", "k2", "deep/er/key", "z"}
 	n := 1 + rng.IntN(8)
@@ -165,7 +165,7 @@ func TestC20(t *testing.T) {
 			}
 		}
 	}
-	r.Require("populated_structs", "rejected_shapes", "rejected_arguments", "failing_field_cases", "bytes_fields_mutated", "secret_fields_followed_poll", "shared_secret_fields", "embedded_structs", "untagged_fields_checked")
+	r.Require("populated_structs", "rejected_shapes", "rejected_arguments", "failing_field_cases", "bytes_fields_mutated", "secret_fields_followed_poll", "shared_secret_fields", "embedded_structs", "untagged_fields_checked", "second_applies")
 	r.Rule("struct types generated at run time: 1-8 fields in random order from {[]byte, string, setec.Secret, value/pointer BinaryUnmarshaler, ',json' struct/map/int} + unsupported {int, []string, *string, map[string]string, bool, empty tag name} + untagged fields of 5 kinds with sentinel contents, optionally one embedded predeclared struct; prefixes {'', a, a/b, dev/prog}; several fields may name the same secret; scripted failing fields (bad JSON, UnmarshalBinary error); via StoreConfig.Structs and via ParseFields+Apply. Distinct = (entry point, sorted set of field kinds, has failing field, prefix)")
 }
 
@@ -354,6 +354,7 @@ func runCase(r *evid.Run, s shape) {
 	var st *setec.Store
 	var err error
 	var applyErr error
+	var fieldsVal *setec.Fields
 	panicked := func() (p any) {
 		defer func() { p = recover() }()
 		if s.Path == "newstore" {
@@ -376,11 +377,26 @@ func runCase(r *evid.Run, s shape) {
 			if len(got) != nTagged || !reflect.DeepEqual(gm, wantNames) {
 				fail("wrong-secret-names", fmt.Sprintf("Fields.Secrets() = %q, want one per tagged field over %v", got, keys(wantNames)))
 			}
-			st, err = setec.NewStore(context.Background(), setec.StoreConfig{Client: svc, Secrets: []string{"unrelated"}, AllowLookup: true, PollInterval: -1, Logf: func(string, ...any) {}})
-			if err != nil {
-				return nil
+			if s.Path == "declare-then-apply" {
+				// the ordinary pattern: declare the names the Fields value reports, then apply. What the caller
+				// does with the returned slice (NewStore sorts what it is given) is the caller's business.
+				decl := f.Secrets()
+				sort.Sort(sort.Reverse(sort.StringSlice(decl)))
+				st, err = setec.NewStore(context.Background(), setec.StoreConfig{Client: svc, Secrets: append(decl, "unrelated"), PollInterval: -1, Logf: func(string, ...any) {}})
+				if err != nil {
+					if anyFailing {
+						err = nil // a missing or malformed secret value is not what this path is about
+					}
+					return nil
+				}
+			} else {
+				st, err = setec.NewStore(context.Background(), setec.StoreConfig{Client: svc, Secrets: []string{"unrelated"}, AllowLookup: true, PollInterval: -1, Logf: func(string, ...any) {}})
+				if err != nil {
+					return nil
+				}
 			}
 			applyErr = f.Apply(context.Background(), st)
+			fieldsVal = f
 		}
 		return nil
 	}()
@@ -522,6 +538,43 @@ func runCase(r *evid.Run, s shape) {
 		}
 	}
 	r.Count("populated_structs", 1)
+	// Apply again after the caller has wiped every tagged field: each must be filled afresh
+	if fieldsVal != nil && st != nil && !anyFailing {
+		for i, f := range s.Fields {
+			if f.Tagged {
+				fv := ptr.Elem().FieldByName(fmt.Sprintf("F%d", i))
+				if f.Kind == "binptr" {
+					// the Fields value is bound to the object the pointer referred to when it was parsed:
+					// clear that object, do not detach it
+					if bv, _ := fv.Interface().(*BinVal); bv != nil {
+						*bv = BinVal{}
+					}
+					continue
+				}
+				fv.Set(reflect.Zero(fv.Type()))
+			}
+		}
+		if err := fieldsVal.Apply(context.Background(), st); err != nil {
+			fail("second-apply-fails", err.Error())
+			return
+		}
+		for i, f := range s.Fields {
+			if f.Tagged {
+				fv := ptr.Elem().FieldByName(fmt.Sprintf("F%d", i))
+				if f.Kind == "binval" || f.Kind == "binptr" {
+					// the monitor type counts calls; a fresh value sees exactly one
+					if !check(fv, f, fmt.Sprintf("field F%d (second Apply after the field was cleared)", i)) {
+						return
+					}
+					continue
+				}
+				if !check(fv, f, fmt.Sprintf("field F%d (second Apply after the field was cleared)", i)) {
+					return
+				}
+			}
+		}
+		r.Count("second_applies", 1)
+	}
 	if st == nil {
 		return // NewStore failed because of a failing field; nothing more to observe
 	}
